@@ -98,6 +98,14 @@ BLOCKS = {
     "param_named_like_duplicate": "def $f():\n    return 1\ndef $g():\n    return 1\ndef $h($g):\n    return $g + 1\nprint($f(), $g(), $h(1))\n",
     "same_member_two_classes": ("class $C:\n    def $m(self, $p):\n        return $p + 7\n    def $g(self, $p):\n        return self.$m($p) + 1\n"
                                 "class $D:\n    @staticmethod\n    def $m($q):\n        return $q - 5\nprint($C().$g(1), $D.$m(7))\n"),
+    "kwonly_param_reassigned": "def $f($p, *, $q=10):\n    $q = min($q, 100)\n    return $p + $q\nprint($f(1), $f(1, $q=5))\n",
+    "star_params_reassigned": "def $f(*$p, **$q):\n    $p = $p or (0,)\n    $q = $q or {'k': 0}\n    return len($p) + len($q)\nprint($f(), $f(1, 2, k=2, j=3))\n",
+    "posonly_param_reassigned": "def $f($p, /, $q):\n    $p = $p + 1\n    return $p + $q\nprint($f(1, 2))\n",
+    "nested_subclass_static": ("class $C:\n    @staticmethod\n    def $m():\n        return 1\n    def $g(self):\n        return self.$m() + 1\n"
+                               "def $f():\n    class $D($C):\n        def $h(self):\n            return self.$m() + 2\n    return $D().$h()\nprint($C().$g(), $f())\n"),
+    "nested_subclass_in_class": ("class $C:\n    @staticmethod\n    def $m():\n        return 1\nclass $D:\n    class $h($C):\n        @classmethod\n        def $g(cls):\n            return cls.$m() + 3\n"
+                                 "print($C.$m(), $D.$h.$g())\n"),
+    "subclass_module_level": "class $C:\n    @staticmethod\n    def $m():\n        return 1\nclass $D($C):\n    def $g(self):\n        return self.$m() + 2\nprint($D().$g(), $C.$m())\n",
     # idioms of rules that invent names
     "idiom_dict_subscript_loop": "$a = {'k': 1, 'j': 2}\nfor $b in $a:\n    print($b, $a[$b])\n",
     "idiom_subscript_looping": "$a = [[1, 2], [3, 4]]\nprint([$a[$b][0] for $b in range(len($a))])\n",
